@@ -83,15 +83,7 @@ def valid(case):
         return False
     if not isinstance(case.get('opts'), dict):
         return False
-    sz = case.get('size')
-    if isinstance(sz, dict):
-        if set(sz) != {'do_all', 'do_all_exceptions', 'n_per_length',
-                       'max_sampled_attempts'}:
-            return False
-        if min(sz['do_all'], sz['do_all_exceptions'],
-               sz['n_per_length']) < 1 or sz['max_sampled_attempts'] < 0:
-            return False
-    elif sz not in (None, 0):
+    if not G.valid_size(case.get('size')):
         return False
     form = case.get('form', 'list')
     if form not in ('list', 'dict', 'series', 'series2'):
